@@ -507,7 +507,12 @@ def objective_zoo(rng, n, lo, up):
     w = [b - a for a, b in zip(lo, up)]
     out_c = [a - 0.3 * (b - a) if rng.random() < 0.5 else b + 0.2 * (b - a) for a, b in zip(lo, up)]
     kind = rng.choice(["quad", "quad_out", "rastrigin", "cone", "cones", "linear", "const", "steps", "plateau",
-                       "sin", "absx", "neg_norm", "twovalue", "big_offset", "tiny", "ridge"])
+                       "sin", "absx", "neg_norm", "twovalue", "big_offset", "tiny", "ridge", "steep"])
+    if kind == "steep":
+        # values and slopes of magnitude 1e6 .. 1e9 (a cost in micro-units): any absolute cap on slopes or values in the code shows here
+        amp = 10.0 ** rng.uniform(6, 9)
+        ph = rng.uniform(0, 6.28)
+        return kind, lambda y: amp * sum(math.sin(3.0 * (t - ci) / wi + ph) + 0.3 * ((t - ci) / wi) ** 2 for t, ci, wi in zip(y, c, w))
     if kind == "quad":
         return kind, lambda y: sum(((t - ci) / wi) ** 2 for t, ci, wi in zip(y, c, w))
     if kind == "quad_out":
